@@ -84,6 +84,15 @@ func c05msg(s *Sink, r *Rand, name string, t reflect.Type, zone string, rounds i
 		s.Add(fmt.Sprintf("CM (CMsgMarshal %s %s %s)", coqString(name), vals, coqOutcome(ocl, coqBytes(b))),
 			map[string]any{"op": "msg-marshal", "type": name, "tz": zone, "values": vals, "outcome": ocl, "msg": msg, "out_hex": hexs(b)}, cl, true)
 		if ocl == "ok" {
+			// the encoder hands out fresh storage: overwriting one encoding does not change the next one of the same value
+			keep := append([]byte{}, b...)
+			for j := range b {
+				b[j] ^= 0xff
+			}
+			if b3, c3, _ := safeMarshal(sv.Interface()); c3 != "ok" || hexs(b3) != hexs(keep) {
+				s.Fail(map[string]any{"op": "msg-marshal-alias", "type": name, "tz": zone, "values": vals, "first": hexs(keep), "second": hexs(b3)}, "encoding the same message again after the first encoding was overwritten gives different bytes")
+			}
+			b = keep
 			c05unmarshal(s, name, t, fs, b, zone, cl+"/decode-of-encode")
 			if mode == 0 { // in-domain values: the decoded message is the encoded one, field by field (judged on the Go side,
 				// so that a message layout the model refuses as ill-formed still yields a concrete failing value)
